@@ -332,9 +332,7 @@ def classify(mismatches, byid):
             keys[m["id"]] = k
         elif k == "star-on-union-then-failing-branch" and obs == {"t": "error", "e": "VariableUndefined"}:
             keys[m["id"]] = k
-        elif k in ("locals-shift-after-failed-branch-that-binds", "captured-member-access-ignores-shadowing",
-                   "match-on-verdict-narrows-source-variable", "narrowing-survives-rebinding",
-                   "spread-of-rebound-variable-uses-old-type"):
+        elif k in ("captured-member-access-ignores-shadowing", "match-on-verdict-narrows-source-variable"):
             keys[m["id"]] = k
             pending.append(m)          # a more specific attribution (re-run / TLC variants) takes precedence
         else:
